@@ -10,7 +10,7 @@ instantiations), SHA1.c, MD5.c, RIPEMD160.c, keccak.c (drivers shared with C02/C
 from vlib.env import Harness
 from vlib.llsym import kern
 from vlib.models import aead as M
-from props import c03, c07, c11
+from props import c03, c07, c11, ecc_c
 
 ERR_NOT_ENOUGH_DATA = 3
 
@@ -177,16 +177,105 @@ def run_chacha(env, sh):
     env.check(K.live_heap() == [], 'destroy releases the state')
 
 
-OWN = dict(raw_mode=Harness('raw_mode', run_raw_mode), raw_mode_seg=Harness('raw_mode_seg', run_raw_mode_seg), strxor=Harness('strxor', run_strxor), chacha=Harness('chacha', run_chacha))
+# ---- Python wrappers: the guards that establish the C preconditions (lengths handed to the native code)
+
+def run_guards_py(env, sh):
+    """every (input, second input, output) length combination: a mismatch is refused with ValueError / TypeError
+    BEFORE the native call; the native contract model reports any length that overruns a passed buffer"""
+    kind = sh['kind']
+    P = env.P
+    la, lb, lo = sh['la'], sh.get('lb'), sh.get('lo')
+    a = env.bytes('a', la)
+    out = None if lo is None else (env.bytearray('out', lo) if sh.get('writable', True) else env.bytes('outb', lo))
+    if env.sym:
+        from vlib.pysym import natives as _n
+        breach = _n.ContractBreach
+    else:
+        breach = ()
+    try:
+        if kind == 'strxor':
+            from Crypto.Util.strxor import strxor
+            b = env.bytes('b', lb)
+            r = strxor(a, b, output=out) if lo is not None else strxor(a, b)
+            exp = P.xor(a, b) if la == lb else None
+        elif kind == 'strxor_c':
+            from Crypto.Util.strxor import strxor_c
+            r = strxor_c(a, sh['c'], output=out) if lo is not None else strxor_c(a, sh['c'])
+            exp = P.xor(a, bytes([sh['c'] & 0xFF]) * la) if 0 <= sh['c'] < 256 else None
+        else:
+            from Crypto.Cipher import AES, ChaCha20
+            key = env.bytes('key', 32 if kind == 'chacha20' else 16)
+            if kind == 'chacha20':
+                ci = ChaCha20.new(key=key, nonce=env.bytes('nonce', 12))
+            elif kind == 'ecb':
+                ci = AES.new(key, AES.MODE_ECB)
+            elif kind == 'ctr':
+                ci = AES.new(key, AES.MODE_CTR, nonce=env.bytes('nonce', 8))
+            else:
+                ci = AES.new(key, dict(cbc=AES.MODE_CBC, cfb=AES.MODE_CFB, ofb=AES.MODE_OFB)[kind], iv=env.bytes('iv', 16))
+            fn = ci.decrypt if sh.get('dec') else ci.encrypt
+            r = fn(a, output=out) if lo is not None else fn(a)
+            exp = None
+        raised = None
+    except ValueError:
+        raised = 'ValueError'
+    except TypeError:
+        raised = 'TypeError'
+    except breach as e:
+        env.check(False, 'the wrapper hands the native code only lengths within the buffers it passes [%s]' % e)
+        return
+    block = 16 if kind in ('ecb', 'cbc') else 1
+    if kind == 'strxor' and la != lb:
+        want = 'ValueError'
+    elif kind == 'strxor_c' and not 0 <= sh['c'] < 256:
+        want = 'ValueError'
+    elif lo is not None and not sh.get('writable', True):
+        want = 'TypeError'
+    elif lo is not None and lo != la:
+        want = 'ValueError'
+    elif la % block:
+        want = 'ValueError'
+    else:
+        want = None
+    env.check(raised == want, 'lengths (%s, %s, out=%s) are %s' % (la, lb, lo, 'refused with ' + want if want else 'accepted'))
+    if raised is None and want is None and exp is not None:
+        got = out if lo is not None else r
+        env.check(env.tobytes(got) == exp, 'result == xor of the operands')
+        if lo is not None:
+            env.check(r is None, 'with output= nothing is returned')
+
+
+OWN = dict(raw_mode=Harness('raw_mode', run_raw_mode), raw_mode_seg=Harness('raw_mode_seg', run_raw_mode_seg), strxor=Harness('strxor', run_strxor), chacha=Harness('chacha', run_chacha),
+           guards_py=Harness('guards_py', run_guards_py))
 HARNESSES = dict(OWN)
 HARNESSES.update(c03.HARNESSES)
 HARNESSES.update({k: v for k, v in c07.HARNESSES.items() if k in ('pkcs1_decode', 'oaep_decode')})
 HARNESSES.update(c11.HARNESSES)
+HARNESSES['ec_scalar_mem'] = ecc_c.HARNESS
 
 
 def own_shapes(tier):
     th = tier == 'thorough'
     jobs = []
+    L = (0, 1, 2, 17) if not th else (0, 1, 2, 3, 16, 17)
+    for la in L:
+        for lb in L:
+            for lo in (None,) + L:
+                if la == lb or lo is None or lo in (la, lb):
+                    jobs.append(('guards_py', dict(kind='strxor', la=la, lb=lb, lo=lo)))
+        for lo in (None,) + L:
+            jobs.append(('guards_py', dict(kind='strxor_c', la=la, lo=lo, c=0x5A)))
+        jobs.append(('guards_py', dict(kind='strxor', la=la, lb=la, lo=la, writable=False)))
+    for c in (-1, 256, 255, 0):
+        jobs.append(('guards_py', dict(kind='strxor_c', la=2, lo=None, c=c)))
+    for kind in ('ecb', 'cbc', 'cfb', 'ofb', 'ctr', 'chacha20'):
+        for la in (16, 32, 17, 0):
+            for lo in (None, la, la - 1, la + 1, la + 16, 0):
+                if lo is not None and lo < 0:
+                    continue
+                for dec in (False, True):
+                    jobs.append(('guards_py', dict(kind=kind, la=la, lo=lo, dec=dec)))
+            jobs.append(('guards_py', dict(kind=kind, la=la, lo=la, writable=False)))
     for mode in ('ecb', 'cbc', 'cfb', 'ofb'):
         for bl in (16, 8):
             lens = [0, 1, bl - 1, bl, bl + 1, 2 * bl, 2 * bl + 1] if th else [0, 1, bl, bl + 1, 2 * bl]
@@ -252,12 +341,13 @@ def shapes(tier):
     jobs += c03.shapes(tier)
     jobs += [j for j in c07.shapes(tier) if j[0] in ('pkcs1_decode', 'oaep_decode')]
     jobs += c11.shapes(tier)
+    jobs += ecc_c.ec_scalar_shapes(tier)
     return jobs
 
 
 BOUNDS = dict(kernels=["raw_ecb.c", "raw_cbc.c", "raw_cfb.c", "raw_ofb.c", "raw_ctr.c", "raw_ocb.c", "strxor.c", "chacha20.c",
                        "pkcs1_decode.c", "hash_SHA2_template.c (SHA224/256/384/512, 512/224, 512/256)", "SHA1.c", "MD5.c",
-                       "RIPEMD160.c", "keccak.c"],
+                       "RIPEMD160.c", "keccak.c", "ec_ws.c + mont.c + p256/p384/p521 tables (ec_ws_new_context, new_point, scalar on the generator and on another point, get_xy, free: concrete operands, scalars of 0..80 bytes)"],
               lengths="0 .. 2 blocks+1 (CTR 9 blocks+1, 1-byte counters 4097 bytes), non-multiples of the block size, in==out, "
               "out = in +-1 / +-block, buffers at odd fake addresses",
               outside=["AES.c/AESNI.c/DES*.c/blowfish*.c/CAST.c/ARC2.c/ARC4.c cores", "ghash_clmul.c, ghash_portable.c", "poly1305.c, blake2.c, Salsa20.c, scrypt.c (not yet)",
